@@ -6,7 +6,8 @@
 (*  MECHANISM  a transcription of what the code does, one operator per method:       *)
 (*     MRegFuzzy    = TargetRegistry._register_fuzzy_type  (ordered type tree, with   *)
 (*                    the pop / re-insert order effects of the OrderedDict)           *)
-(*     MClosest     = TargetRegistry._get_closest_type     (first-match DFS)          *)
+(*     MClosest     = TargetRegistry._get_closest_type     (all matching branches,    *)
+(*                    earliest type in the MRO of the object's type wins)             *)
 (*     MRegister    = TargetRegistry.register                                         *)
 (*     MRegisterOp  = TargetRegistry.register_op                                      *)
 (*     MLookup      = TargetRegistry.get_handler           (memo in _type_cache)      *)
@@ -26,15 +27,22 @@ EXTENDS Integers, Sequences, FiniteSets, TLC
 CONSTANTS
   U,        \* class universe: [sub  |-> [type -> set of types b with issubclass(type, b)],
             \*                  inst |-> [type -> set of types c with isinstance(type(), c)],
-            \*                  auto |-> [op -> [type -> name of the autodiscovered handler]]]
+            \*                  auto |-> [op -> [type -> name of the autodiscovered handler]],
+            \*                  mro  |-> [type -> type.__mro__ as a sequence of type names]]
   Ops,      \* operations modelled in this run, subset of AllOps (they are independent)
   Mutant    \* "" = faithful mechanism; otherwise the name of a deliberately wrong disjunct
 
 AllOps == {"get", "iterate", "keys", "assign", "delete"}
-Sub(a, b)    == b \in U.sub[a]                    \* issubclass(a, b)
-IsInst(T, c) == c \in U.inst[T]                   \* isinstance(T(), c)
+\* (zero-arity definitions: TLC evaluates them once, whereas a constant overridden in the cfg by
+\* an expression is re-evaluated at every use)
+USub  == U.sub
+UInst == U.inst
+UAuto == U.auto
+UMro  == U.mro
+Sub(a, b)    == b \in USub[a]                     \* issubclass(a, b)
+IsInst(T, c) == c \in UInst[T]                    \* isinstance(T(), c)
 Ducks        == {"_AbstractIterable", "_ObjStyleKeys"}
-ObjTypes     == DOMAIN U.inst                     \* instantiable types
+ObjTypes     == DOMAIN UInst                      \* instantiable types
 
 \* ---- handlers ------------------------------------------------------------------------
 \* [o |-> owner, n |-> serial]: a handler passed by the user to the n-th action of the
@@ -44,7 +52,7 @@ ObjTypes     == DOMAIN U.inst                     \* instantiable types
 \* supported for this operation"), which get_handler turns into UnregisteredTarget.
 H(o, n) == [o |-> o, n |-> n]
 FalseH  == H("False", 0)
-AutoH(op, t) == H(U.auto[op][t], 0)               \* result of the op's autodiscovery function
+AutoH(op, t) == H(UAuto[op][t], 0)               \* result of the op's autodiscovery function
 
 Range(s) == {s[i] : i \in 1..Len(s)}
 RECURSIVE SeqOf(_)
@@ -100,16 +108,33 @@ MRegFuzzy(tree, new) ==
   LET r == MFuzzyLoop(tree, tree, 1, new, FALSE)
   IN IF r.reg THEN r.tree ELSE SetKey(r.tree, new, Node(new, <<>>))
 
-\* _get_closest_type: the first entry (in dict order) the object is an instance of wins, then
-\* its subtree is searched the same way; "NONE" is Python's None
-RECURSIVE MClosestFrom(_, _, _)
-MClosestFrom(tree, T, i) ==
+\* _get_closest_type: every entry the object is an instance of is followed into its subtree (the
+\* deepest match of each branch is collected, in dict order); among the collected types those in
+\* type(obj).__mro__ win, the earliest in the MRO first; only if none is in the MRO (virtual / duck
+\* matches only) the first collected one is taken; "NONE" is Python's None.
+\* Mutants: "first_match_dfs" is the algorithm before commit 8de08eb (the first matching entry wins and
+\* only its subtree is searched); "shallow_closest" does not descend at all.
+MroIndex(T, c) == CHOOSE k \in 1..Len(UMro[T]) : UMro[T][k] = c
+InMro(T, c) == \E k \in 1..Len(UMro[T]) : UMro[T][k] = c
+RECURSIVE MClosest(_, _), MFirstMatch(_, _, _)
+MFirstMatch(tree, T, i) ==
   IF i > Len(tree) THEN "NONE"
   ELSE IF IsInst(T, tree[i].t)
-       THEN LET s == MClosestFrom(tree[i].sub, T, 1) IN
-            IF s = "NONE" \/ Mutant = "shallow_closest" THEN tree[i].t ELSE s
-       ELSE MClosestFrom(tree, T, i + 1)
-MClosest(tree, T) == MClosestFrom(tree, T, 1)
+       THEN LET s == MFirstMatch(tree[i].sub, T, 1) IN IF s = "NONE" THEN tree[i].t ELSE s
+       ELSE MFirstMatch(tree, T, i + 1)
+MClosest(tree, T) ==
+  IF Mutant = "first_match_dfs" THEN MFirstMatch(tree, T, 1)
+  ELSE
+  LET hits == SelectSeq(tree, LAMBDA n : IsInst(T, n.t))
+      deep(n) == LET s == MClosest(n.sub, T) IN IF s = "NONE" \/ Mutant = "shallow_closest" THEN n.t ELSE s
+      matches == [k \in 1..Len(hits) |-> deep(hits[k])]
+      nominal == SelectSeq(matches, LAMBDA c : InMro(T, c))
+  IN IF Len(matches) = 0 THEN "NONE"
+     ELSE IF Len(nominal) > 0
+          THEN nominal[CHOOSE k \in 1..Len(nominal) :
+                         \A m \in 1..Len(nominal) : /\ MroIndex(T, nominal[k]) <= MroIndex(T, nominal[m])
+                                                     /\ (MroIndex(T, nominal[k]) = MroIndex(T, nominal[m]) => k <= m)]
+          ELSE matches[1]
 
 \* register(target_type, exact=.., **kw): every op with an autodiscovery function plus every op
 \* named in kw gets a type-map entry (given handler, else the existing one, else autodiscovered);
@@ -194,12 +219,16 @@ Restrict(R) == [R EXCEPT !.map  = [op \in Ops |-> R.map[op]],
                          !.tree = [op \in Ops |-> R.tree[op]],
                          !.auto = SelectSeq(R.auto, LAMBDA op : op \in Ops)]
 HasDefaults(kind) == kind \in {"default", "glommer"}
+\* TargetRegistry(register_default_types=..) as built by __init__; for the module-level registry the
+\* import of glom.mutation then adds 'assign' and 'delete' with register_op; Glommer.__init__ (since
+\* commit 7341a6a) does the same for every operation the default registry knows and the new one lacks.
+\* Mutant "glommer_without_mutation_ops": Glommer construction before that commit.
 PristineFor(kind, setorder) ==
   LET r0 == EmptyRegistry(kind)
       r1 == MRegisterOp(r0, "iterate", DefaultByName, setorder)     \* _register_builtin_ops
       r2 == MRegisterOp(r1, "get", DefaultByName, setorder)
       r3 == IF HasDefaults(kind) THEN MDefaults(r2, 1) ELSE r2
-      r4 == IF kind = "default"                                     \* import of glom.mutation
+      r4 == IF kind = "default" \/ Mutant # "glommer_without_mutation_ops"
             THEN MRegisterOp(MRegisterOp(r3, "assign", DefaultByName, setorder),
                              "delete", DefaultByName, setorder)
             ELSE r3
@@ -219,13 +248,6 @@ LMade(R) == IF HasDefaults(R.kind) THEN DefaultMade \o R.made ELSE R.made
 \* getattr", iterate "defaults to iter if the type appears to be iterable"; assign / delete are
 \* listed among the builtin operations): registering a type registers it for all of them.
 LawAutoOps == {"iterate", "get", "assign", "delete"}
-\* The code gives Glommer registries only the first two (the other two are added to the default
-\* registry when glom.mutation is imported).  For a default Glommer the property demands the
-\* behaviour of module-level glom, so the law insists on all four; for a bare Glommer
-\* (register_default_types=False) nothing is promised and both readings are accepted.
-CodeAutoOps(R) == IF R.kind = "default" THEN LawAutoOps ELSE {"iterate", "get"}
-Lenient(R, op) == R.kind = "bare" /\ op \in {"assign", "delete"}
-
 \* (the operators below take made = LMade(R) so that it is built once per question)
 LCovering(made, op, autos) == {i \in 1..Len(made) : op \in autos \/ op \in KwOps(made[i].kw)}
 LRegistered(made, op, autos) == {made[i].t : i \in LCovering(made, op, autos)}
@@ -248,58 +270,19 @@ BelowDef(c, d) ==
   \/ /\ c \notin Ducks /\ d \in Ducks
      /\ \E T \in ObjTypes : IsInst(T, c)
      /\ \A T \in ObjTypes : IsInst(T, c) => IsInst(T, d)
-BelowTab == [c \in DOMAIN U.sub |-> {d \in DOMAIN U.sub : BelowDef(c, d)}]   \* evaluated once
+BelowTab == [c \in DOMAIN USub |-> {d \in DOMAIN USub : BelowDef(c, d)}]   \* evaluated once
 Below(c, d) == d \in BelowTab[c]
 StrictlyBelow(c, d) == c # d /\ Below(c, d) /\ ~Below(d, c)
 LMinimal(S) == {c \in S : ~\E d \in S : StrictlyBelow(d, c)}
-LAllowedM(made, T, op, autos) ==
-  LET cands == LCands(made, T, op, autos) IN
+\* (split so that the sets that do not depend on T are computed once per registry and operation)
+LCandsC(registered, fuzzy, T) == IF T \in registered THEN {T} ELSE {c \in fuzzy : IsInst(T, c)}
+LAllowedC(made, registered, fuzzy, T, op) ==
+  LET cands == LCandsC(registered, fuzzy, T) IN
   IF cands = {} THEN {FalseH} ELSE {LHandler(made, c, op) : c \in LMinimal(cands)}
-LAllowedWith(R, T, op, autos) == LAllowedM(LMade(R), T, op, autos)
+LAllowedM(made, T, op, autos) ==
+  LAllowedC(made, LRegistered(made, op, autos), LFuzzy(made, op, autos), T, op)
 \* THE LAW: the handler used for an instance of T is one of these (usually exactly one)
-LAllowed(R, T, op) ==
-  LET made == LMade(R) IN
-  IF Lenient(R, op) THEN LAllowedM(made, T, op, LawAutoOps) \cup LAllowedM(made, T, op, CodeAutoOps(R))
-  ELSE LAllowedM(made, T, op, LawAutoOps)
-
-\* ---- shapes of known deviations of the code from the law (see known_findings.json) ----------
-\* They are part of neither law nor mechanism: MC_C13 uses them to check that the transcribed
-\* mechanism deviates from the law *only* in these narrowly described situations, and the
-\* harness uses the same labels to match violating cases of the real code to recorded findings.
-\* k1: registry with the default types; the first-match DFS stops at the duck type _ObjStyleKeys
-\*     (a sibling registered earlier) although every nearest registered type of T is a class
-\*     whose instances all are _ObjStyleKeys, i.e. is more specific.
-Known1(R, T, op, h, autos) ==
-  LET made == LMade(R) cands == LCands(made, T, op, autos) IN
-  /\ HasDefaults(R.kind) /\ T \notin LRegistered(made, op, autos)
-  /\ "_ObjStyleKeys" \in cands
-  /\ h = LHandler(made, "_ObjStyleKeys", op)
-  /\ \A m \in LMinimal(cands) : m \notin DefaultTypes /\ StrictlyBelow(m, "_ObjStyleKeys")
-\* k2: multiple inheritance + order: the handler of a non-minimal candidate c is used although a
-\*     registered subclass m of c is a candidate too, where m was registered before c and m
-\*     has another registered base p unrelated to c (m sits under p in the tree and is not
-\*     re-parented under c when c arrives).
-FirstMade(made, t) == LET S == {i \in 1..Len(made) : made[i].t = t /\ ~made[i].exact}
-                      IN made[CHOOSE i \in S : \A k \in S : i <= k].n
-Known2(R, T, op, h, autos) ==
-  LET made == LMade(R) cands == LCands(made, T, op, autos) fz == LFuzzy(made, op, autos) IN
-  /\ T \notin LRegistered(made, op, autos)
-  /\ \E c \in cands \ LMinimal(cands) :
-       /\ h = LHandler(made, c, op)
-       /\ \E m \in cands : /\ m # c /\ Sub(m, c)
-                           /\ FirstMade(made, m) < FirstMade(made, c)
-                           /\ \E p \in fz : p # m /\ p # c /\ Sub(m, p) /\ ~Sub(p, c) /\ ~Sub(c, p)
-\* k3: a Glommer() registry has no autodiscovery for assign / delete: it answers as the law
-\*     would if registrations covered these two operations only when named explicitly.
-Known3(R, T, op, h) ==
-  /\ R.kind = "glommer" /\ op \in {"assign", "delete"}
-  /\ h \in LAllowedWith(R, T, op, CodeAutoOps(R))
-KnownLabel(R, T, op, h) ==
-  IF h \in LAllowed(R, T, op) THEN ""
-  ELSE IF Known3(R, T, op, h) THEN "k3"
-  ELSE IF Known1(R, T, op, h, CodeAutoOps(R)) THEN "k1"
-  ELSE IF Known2(R, T, op, h, CodeAutoOps(R)) THEN "k2"
-  ELSE "?"
+LAllowed(R, T, op) == LAllowedM(LMade(R), T, op, LawAutoOps)
 
 (***************************************************************************************)
 (* MACHINE                                                                             *)
@@ -324,8 +307,7 @@ Lookup(r, T, op) ==
   /\ regs[r].live
   /\ regs' = [regs EXCEPT ![r] = res.R]
   /\ hist' = Append(hist, [a |-> "look", r |-> r, t |-> T, op |-> op, h |-> res.h,
-                           allowed |-> SeqOf(LAllowed(regs[r], T, op)),
-                           known |-> KnownLabel(regs[r], T, op, res.h)])
+                           allowed |-> SeqOf(LAllowed(regs[r], T, op))])
 NewGlommer(r, setorder) ==
   /\ ~regs[r].live
   /\ regs' = [regs EXCEPT ![r] = PristineFor(RegKind[r], setorder)]
@@ -334,29 +316,28 @@ NewGlommer(r, setorder) ==
 \* ---- the laws as state / action predicates ---------------------------------------------
 Live == {r \in DOMAIN regs : regs[r].live}
 \* nearest registered type, for every instantiable type and operation, in every state
-NearestAt(R, T, op, strict) ==
-  LET h == MResolve(R, T, op) IN
-  \/ h \in LAllowed(R, T, op)
-  \/ ~strict /\ KnownLabel(R, T, op, h) # "?"
-NearestLaw(objs, strict) == \A r \in Live : \A T \in objs : \A op \in Ops : NearestAt(regs[r], T, op, strict)
+NearestLaw(objs) ==
+  \A r \in Live : \A op \in Ops :
+    LET R == regs[r]
+        made == LMade(R)
+        registered == LRegistered(made, op, LawAutoOps)
+        fuzzy == LFuzzy(made, op, LawAutoOps)
+    IN \A T \in objs : MResolve(R, T, op) \in LAllowedC(made, registered, fuzzy, T, op)
 \* the memo is coherent: whatever it holds is what a fresh resolution gives now, so a
 \* register() is in effect for the very next lookup and earlier lookups do not matter
 CacheCoherent ==
   \A r \in Live : \A i \in 1..Len(regs[r].cache) :
     LET e == regs[r].cache[i] IN e.h = MResolve(regs[r], e.t, e.op)
-\* every handler actually handed out by a Lookup action was lawful (or a known deviation)
-HandedOutLawful(strict) ==
-  \A i \in 1..Len(hist) : hist[i].a = "look" =>
-     IF strict THEN hist[i].known = "" ELSE hist[i].known # "?"
+\* every handler actually handed out by a Lookup action was lawful
+HandedOutLawful ==
+  \A i \in 1..Len(hist) : hist[i].a = "look" => hist[i].h \in Range(hist[i].allowed)
 \* an action on one registry leaves every other registry unchanged
 IsolationStep ==
   LET a == hist'[Len(hist')] IN \A r \in DOMAIN regs : r # a.r => regs'[r] = regs[r]
 \* a Glommer() nobody registered on behaves like the untouched module-level glom
-FreshGlommerLikeDefault(objs, pristineDefault, strict) ==
+FreshGlommerLikeDefault(objs, pristineDefault) ==
   \A r \in Live : regs[r].kind = "glommer" /\ regs[r].made = <<>> =>
-    \A T \in objs : \A op \in Ops :
-      \/ MResolve(regs[r], T, op) = MResolve(pristineDefault, T, op)
-      \/ ~strict /\ op \in {"assign", "delete"} /\ MResolve(regs[r], T, op) = FalseH
+    \A T \in objs : \A op \in Ops : MResolve(regs[r], T, op) = MResolve(pristineDefault, T, op)
 \* the tree invariant glom's docstring states: a key is a valid parent type of all its children
 RECURSIVE TreeParents(_, _)
 TreeParents(tree, parent) ==
